@@ -43,6 +43,81 @@ def again_count(seed, amax, name, locals_):
     return 0 if amax <= 0 else hash_instance(seed, name, locals_) % (amax + 1)
 
 
+# ---------------------------------------------------------------- well-formedness, first match wins
+def wf_fm(p, why=None):
+    """mirror of PTGValDefs.wf_program_fm: jdfgen.wf with "exactly one active input per data flow" relaxed to
+    "at least one" (the runtime takes the FIRST applicable input dependency, as jdfgen.pred_edges does)"""
+    def no(msg):
+        if why is not None:
+            why.append(msg)
+        return False
+    instances, complete, dep_target, target_tasks = jdfgen.instances, jdfgen.complete, jdfgen.dep_target, jdfgen.target_tasks
+    ids = instances(p)
+    idset = set(ids)
+    for c in p.classes:
+        if len(c.locals) > 20 or len(c.flows) > 20:
+            return no("limits")
+        for f in c.flows:
+            if sum((2 if d.els else 1) for d in f.deps if d.din) > 10 or sum((2 if d.els else 1) for d in f.deps if not d.din) > 10:
+                return no("dep limits")
+        for i, l in enumerate(c.locals):
+            if l.kind == 'R' and i not in c.params:
+                return no("range not a parameter")
+        if any(i >= len(c.locals) for i in c.params):
+            return no("bad param")
+    if len(idset) != len(ids):
+        return no("duplicate instance ids")
+    P, S = {}, {}
+    for t in ids:
+        P[t] = jdfgen.pred_edges(p, t)
+        S[t] = jdfgen.succ_edges(p, t)
+    for t in ids:
+        c = p.classes[t[0]]
+        env = complete(p.gvals, c, t[1])
+        if env is None:
+            return no("instance %s not rebuilt by complete" % (t,))
+        for f in c.flows:
+            if f.mode == 'C':
+                for d in f.deps:
+                    if d.din:
+                        tg = dep_target(p.gvals, env, d)
+                        if tg is not None and (tg[0] != 'T' or not target_tasks(p.gvals, env, 0, tg)):
+                            return no("active CTL input without task in %s" % c.name)
+            elif any(d.din for d in f.deps):
+                if sum(1 for d in f.deps if d.din and dep_target(p.gvals, env, d) is not None) < 1:      # the only difference
+                    return no("data flow %s of %s%s: no active input" % (f.name, c.name, t[1]))
+        for e in P[t]:
+            ft, q, fq = e
+            if q not in idset:
+                return no("pred %s of %s not an instance" % (q, t))
+            if S[q].count((fq, t, ft)) != P[t].count(e):
+                return no("edge %s -> %s: views differ" % (q, t))
+        for e in S[t]:
+            ft, s_, fs = e
+            if s_ not in idset:
+                return no("succ %s of %s not an instance" % (s_, t))
+            if P[s_].count((fs, t, ft)) != S[t].count(e):
+                return no("edge %s -> %s: views differ (succ side)" % (t, s_))
+    for t in ids:
+        pt = [e[1] for e in P[t]]
+        stt = [e[1] for e in S[t]]
+        for q in set(pt):
+            if [e[1] for e in S[q]].count(t) != pt.count(q):
+                return no("multiplicity of %s -> %s differs" % (q, t))
+        for s_ in set(stt):
+            if [e[1] for e in P[s_]].count(t) != stt.count(s_):
+                return no("multiplicity of %s -> %s differs" % (t, s_))
+    placed, todo = set(), list(ids)
+    while todo:
+        ready = [t for t in todo if all(e[1] in placed for e in P[t])]
+        if not ready:
+            return no("cycle")
+        placed.update(ready)
+        rs = set(ready)
+        todo = [t for t in todo if t not in rs]
+    return True
+
+
 # ---------------------------------------------------------------- data semantics
 class Sem:
     """static view of a program: instances, environments, edges, sources, cells"""
@@ -251,6 +326,12 @@ class ValGen(jdfgen.Gen):
                         d = ins[0]
                         if d.guard is None:
                             pass
+                        elif getattr(self, "force_overlap", False) or r.chance(2, 5):
+                            # OVERLAPPING guards, first match wins: the guarded task dependency, then a fallback whose
+                            # guard is absent or weaker (holds also where the first one does)
+                            k = f.deps.index(d)
+                            g2 = None if r.chance(2, 3) else jdfgen.B("or", d.guard, jdfgen.B("ge", jdfgen.L(c.params[0]), jdfgen.C(-100)))
+                            f.deps.insert(k + 1, jdfgen.Dep(True, g2, src))
                         elif r.chance(1, 2):
                             d.els = src
                         else:
@@ -311,8 +392,42 @@ def _t_relay(g):
         g.connect((t, ta), (u, ua), [jdfgen.same(0)], [jdfgen.same(0)])
 
 
-EXTRA_TEMPLATES = {"bcast_read": _t_bcast_read, "relay": _t_relay}
-VAL_TEMPLATES = ("chain", "bcast_gather", "diamond", "split_merge", "pipeline2d", "fan", "tri", "mixed", "bcast_read", "relay")
+def _t_overlap(g):
+    """first match wins: T(k) RW A <- (k - d >= 0) ? A T(k-d)  <- D(..)   (the fallback has no guard, or one that also holds
+    where the first does) plus a second task-fed flow READ B <- B S(k) whose producers have no predecessor and
+    finish early; sometimes a control chain too.  A runtime that looks past the first applicable dependency would
+    release T(k) as soon as S(k) is done."""
+    r = g.r
+    g.force_overlap = True
+    n = r.range(3, 9)
+    t = g.new_class([(n, False)])
+    g.p.classes[t].count = False                 # mask tracking (the default of ptgpp)
+    a = g.add_flow(t, 'B')
+    d = r.pick([1, 1, 2])
+    g.connect((t, a), (t, a), [jdfgen.shift(0, d)], [jdfgen.shift(0, -d)], out_bounds=r.chance(1, 2))
+    s = g.new_class([(n, False)])
+    b = g.add_flow(s, r.pick(['B', 'W']))
+    rd = g.add_flow(t, 'R')
+    g.connect((s, b), (t, rd), [jdfgen.same(0)], [jdfgen.same(0)], out_bounds=r.chance(1, 2))
+    if r.chance(1, 3):
+        x = g.add_flow(t, 'C')
+        g.connect((t, x), (t, x), [jdfgen.shift(0, 1)], [jdfgen.shift(0, -1)], out_bounds=r.chance(1, 2))
+
+
+def overlapping_flows(p):
+    """number of (instance, data flow) pairs with more than one applicable input dependency"""
+    n = 0
+    for t in jdfgen.instances(p):
+        c = p.classes[t[0]]
+        env = jdfgen.complete(p.gvals, c, t[1])
+        for f in c.flows:
+            if f.mode != 'C' and sum(1 for d in f.deps if d.din and jdfgen.dep_target(p.gvals, env, d) is not None) > 1:
+                n += 1
+    return n
+
+
+EXTRA_TEMPLATES = {"bcast_read": _t_bcast_read, "relay": _t_relay, "overlap": _t_overlap}
+VAL_TEMPLATES = ("overlap", "chain", "fan", "bcast_gather", "diamond", "split_merge", "pipeline2d", "tri", "mixed", "bcast_read", "relay")
 
 
 def gen_value_program(rng, template=None, max_inst=100, tries=60):
@@ -332,7 +447,7 @@ def gen_value_program(rng, template=None, max_inst=100, tries=60):
         p = g.p
         p.template = t
         n = len(jdfgen.instances(p))
-        if n == 0 or n > max_inst or not jdfgen.wf(p):
+        if n == 0 or n > max_inst or not wf_fm(p):
             continue
         sem = Sem(p)
         if reads_uninit(sem) or not safe(sem):
@@ -342,7 +457,7 @@ def gen_value_program(rng, template=None, max_inst=100, tries=60):
     jdfgen._t_chain(g)
     g.finish_flows()
     g.p.template = "chain-fallback"
-    assert jdfgen.wf(g.p) and safe(Sem(g.p))
+    assert wf_fm(g.p) and safe(Sem(g.p))
     return g.p
 
 
